@@ -9,6 +9,8 @@
 package remux
 
 import (
+	"bytes"
+
 	"github.com/q191201771/lal/pkg/base"
 )
 
@@ -59,6 +61,10 @@ type GopCache struct {
 	VideoSeqHeader                    []byte
 	AacSeqHeader                      []byte
 
+	// 最近一次seq header的内容（不包含时间戳等头部信息），用于判断seq header内容是否发生了变化
+	videoSeqHeaderPayload []byte
+	aacSeqHeaderPayload   []byte
+
 	gopRing              []Gop
 	gopRingFirst         int
 	gopRingLast          int
@@ -105,12 +111,14 @@ func (gc *GopCache) Feed(msg base.RtmpMsg, b []byte) bool {
 		return true
 	case base.RtmpTypeIdAudio:
 		if msg.IsAacSeqHeader() {
+			gc.clearGopIfSeqHeaderChanged(&gc.aacSeqHeaderPayload, msg.Payload)
 			gc.AacSeqHeader = b
 			Log.Debugf("[%s] cache %s aac seq header. size:%d", gc.uniqueKey, gc.t, len(gc.AacSeqHeader))
 			return true
 		}
 	case base.RtmpTypeIdVideo:
 		if msg.IsVideoKeySeqHeader() {
+			gc.clearGopIfSeqHeaderChanged(&gc.videoSeqHeaderPayload, msg.Payload)
 			gc.VideoSeqHeader = b
 			Log.Debugf("[%s] cache %s video seq header. size:%d", gc.uniqueKey, gc.t, len(gc.VideoSeqHeader))
 			return true
@@ -144,6 +152,8 @@ func (gc *GopCache) Clear() {
 	gc.MetadataEnsureWithoutSetDataFrame = nil
 	gc.VideoSeqHeader = nil
 	gc.AacSeqHeader = nil
+	gc.videoSeqHeaderPayload = nil
+	gc.aacSeqHeaderPayload = nil
 	gc.gopRingLast = 0
 	gc.gopRingFirst = 0
 }
@@ -184,6 +194,18 @@ func (gc *GopCache) isGopRingFull() bool {
 
 func (gc *GopCache) isGopRingEmpty() bool {
 	return gc.gopRingFirst == gc.gopRingLast
+}
+
+// clearGopIfSeqHeaderChanged
+//
+// seq header内容发生变化时，之前缓存的GOP是按旧的seq header编码的，新加入的订阅者拿到的是新的seq header，无法解码这些GOP，
+// 所以需要清空。内容相同的seq header（比如编码器周期性重发）不受影响。
+func (gc *GopCache) clearGopIfSeqHeaderChanged(prev *[]byte, payload []byte) {
+	if *prev != nil && !bytes.Equal(*prev, payload) {
+		gc.gopRingFirst = 0
+		gc.gopRingLast = 0
+	}
+	*prev = append((*prev)[:0], payload...)
 }
 
 // ---------------------------------------------------------------------------------------------------------------------
